@@ -21,10 +21,10 @@ import (
 )
 
 var futBodies = []struct{ name, text string }{
-	{"returns", `(fn [] (t! 1) 7)`},
-	{"throws", `(fn [] (t! 1) (throw "boom"))`},
-	{"waits-for-cancel", `(fn [] (t! 1) (wait-cancel!) 8)`},
-	{"ignores-cancel", `(fn [] (t! 1) (busy!))`},
+	{"returns", `(fn [] (t! 1) (probe!) 7)`},
+	{"throws", `(fn [] (t! 1) (probe!) (throw "boom"))`},
+	{"waits-for-cancel", `(fn [] (t! 1) (probe!) (wait-cancel!) 8)`},
+	{"ignores-cancel", `(fn [] (t! 1) (probe!) (busy!))`},
 }
 
 var futOps = []struct{ name, text string }{
@@ -51,6 +51,7 @@ type c10state struct {
 	sent     bool
 	bodyRuns int
 	waiting  bool // body is parked in wait-cancel!
+	bodyCtx  context.Context // the context the body runs under (recorded by the probe! builtin)
 	callersDone int
 }
 
@@ -79,6 +80,12 @@ func init() {
 					}
 				}
 				return nil, errors.New("body saw its context end")
+			})
+			call.CallOverrideFN(base, "probe!", func(ctx context.Context) (types.MalType, error) {
+				if cur != nil {
+					cur.bodyCtx = ctx
+				}
+				return nil, nil
 			})
 			call.CallOverrideFN(base, "busy!", func() (types.MalType, error) {
 				if s := vcore.Active(); s != nil {
@@ -355,6 +362,9 @@ func init() {
 						}
 						if st.fut.Cancelled {
 							return fail("cancelled flag set although no future-cancel succeeded")
+						}
+						if st.bodyCtx != nil && st.bodyCtx.Err() != nil {
+							return fail("the body's context was cancelled although no future-cancel succeeded")
 						}
 					}
 					// a cancel invoked after the future completed (body goroutine finished) and without
